@@ -24,6 +24,8 @@ def atom_to_str(v):
     """order-preserving injective map from integer atoms to text (names are only ever
     compared, sorted, hashed and copied by the code under test)"""
     v = int(v)
+    if v == E.EMPTY_ATOM:
+        return ""
     base = ("p%07d" % v) if v >= 0 else ("m%07d" % (10 ** 7 + v))
     # distinct atoms have distinct fixed-width prefixes, so the order is decided before the suffix:
     # replays therefore also exercise non-ASCII names and names of unequal length
